@@ -3,10 +3,17 @@ package mqtt
 // C16 (a): one base-client connection and the ways it can end, racing with each other
 // and with Connect (delay-bounded schedules).
 
-import "context"
+import (
+	"context"
+	"errors"
+	"io"
+)
 
 func VerifH_C16_Base() {
 	conn := newVconn("c0")
+	if verifChoice("closeerr", 2) == 1 {
+		conn.closeErr = errors.New("transport teardown error")
+	}
 	cli := &BaseClient{Transport: conn}
 	var states []ConnState
 	var serrs []error
@@ -116,6 +123,15 @@ func VerifH_C16_Base() {
 			verifReach("no-disconnect")
 			verifAssert(nClosed == 1, "C16.closed_reported_once_when_connection_ended")
 			verifAssert(cli.Err() != nil, "C16.err_reports_cause")
+			// the error is the one that ended the connection, not a by-product of tearing it down
+			if nc == 1 && refused == 0 {
+				switch causes[0] {
+				case 0:
+					verifAssert(cli.Err() == io.EOF, "C16.err_is_the_cause")
+				case 2:
+					verifAssert(errors.Is(cli.Err(), ErrInvalidPacket), "C16.err_is_the_cause")
+				}
+			}
 		}
 		_ = connectErr
 	})
